@@ -2085,9 +2085,24 @@ class IMAPClientCommand:
         if mbox_name.lower() == "inbox":
             mbox_name = "inbox"
         if mbox_name != "":
-            return os.path.normpath(mbox_name)
-        else:
-            return mbox_name
+            mbox_name = os.path.normpath(mbox_name)
+
+            # A mailbox name is a path relative to the user's mail directory
+            # (a single leading '/', the namespace prefix, is ignored.) It must
+            # stay inside of it: after normalization that means it is not
+            # absolute, is not the mail directory itself, and does not start
+            # with '..'
+            #
+            rel_name = mbox_name[1:] if mbox_name[0] == "/" else mbox_name
+            if (
+                rel_name in ("", ".", "..")
+                or rel_name[0] == "/"
+                or rel_name.startswith("../")
+            ):
+                raise BadSyntax(
+                    value="mailbox name is outside of the mail directory"
+                )
+        return mbox_name
 
     #######################################################################
     #
